@@ -980,15 +980,21 @@ def Engine.nextAckTimeout (e : Engine) : Option (Nat × Nat) :=
     | none => some x
     | some b => if x.2 < b.2 then some x else some b) none
 
-/-- `process_ack_timeouts` -/
+/-- the earliest record that does not belong to the operation being written -/
+def Engine.nextDueTimeout (e : Engine) : Option (Nat × Nat) :=
+  (e.timeouts.filter (fun x => e.current != some x.1)).foldl (fun best x => match best with
+    | none => some x
+    | some b => if x.2 < b.2 then some x else some b) none
+
+/-- `process_ack_timeouts`: every expired record is applied, except that of the operation being written (it is
+    kept and applied once the packet is complete) -/
 def Engine.processAckTimeouts : Nat → Engine → Engine × Res
   | 0, e => (e, .ok)
   | fuel + 1, e =>
-    match e.nextAckTimeout with
+    match e.nextDueTimeout with
     | none => (e, .ok)
     | some (id, deadline) =>
-      -- the operation being written is not timed out until its packet is complete
-      if deadline ≤ e.now && e.current != some id then
+      if deadline ≤ e.now then
         let e1 := { e with timeouts := e.timeouts.erase (id, deadline) }
         let (e2, r) := e1.completeFailure id "AckTimeout"
         let (e3, r3) := Engine.processAckTimeouts fuel e2
